@@ -68,7 +68,14 @@ func genC06Tree(r *RNG) *N {
 	}
 	cfg := GenCfg{Budget: r.Range(4, 30), Calls: r.Chance(1, 2), Closures: true, Maps: true, AllocOnly: true, SliceCall: true}
 	g := NewGen(r, cfg)
-	switch r.Intn(5) {
+	switch r.Intn(7) {
+	case 5:
+		// an allocating operand next to a rewrite candidate: each allocation must be
+		// charged once whatever the optimiser does with the membership test
+		lo := r.Range(0, 3)
+		return nBin(r.Pick([]string{"in", "not in"}), nLen(g.rangeExpr()), nBin("..", nInt(lo), nInt(lo+r.Range(0, 12))))
+	case 6:
+		return nArr(nBi("count", g.Seq(), g.closureBool("int")), nLen(g.rangeExpr()))
 	case 0:
 		return g.Seq()
 	case 1:
@@ -139,8 +146,12 @@ func (c06Engine) Gen(seed uint64, idx int, tier string) interface{} {
 				set[b] = true
 			}
 		}
+		allocs := ref.Allocs
+		if rootMembershipRange(tree) && sc.Optimize && len(allocs) > 0 {
+			allocs = allocs[:len(allocs)-1]
+		}
 		s := 0
-		for _, a := range ref.Allocs {
+		for _, a := range allocs {
 			s += a
 			add(s - 1)
 			add(s)
@@ -177,7 +188,12 @@ func (c06Engine) Run(sci interface{}, ctx *RunCtx) *Finding {
 	if !sc.Optimize {
 		opts = append(opts, expr.Optimize(false))
 	}
-	if sc.Optimize && mayPrebuild(sc.Tree) {
+	rootRHS := rootMembershipRange(sc.Tree)
+	checkTree := sc.Tree
+	if rootRHS {
+		checkTree = sc.Tree.C[0] // the literal range on the right of the root 'in' is handled below
+	}
+	if sc.Optimize && mayPrebuild(checkTree) {
 		// A literal range or all-constant array may be built at compile time by
 		// the optimiser; whether it is "built during evaluation" then depends on
 		// the optimiser, so it is not a C06 workload (only shrinking produces these).
@@ -197,6 +213,12 @@ func (c06Engine) Run(sci interface{}, ctx *RunCtx) *Finding {
 	}
 	if ref.Huge {
 		ctx.Count("huge_range_workloads", 1)
+	}
+	if rootRHS && sc.Optimize && len(ref.Allocs) > 0 && !ref.Huge {
+		// 'x in <literal range>' at the root: with optimisation on the literal range is
+		// either rewritten into comparisons or built at compile time - in both cases it
+		// is not built during evaluation. It is the last allocation of the reference.
+		ref.Allocs = ref.Allocs[:len(ref.Allocs)-1]
 	}
 	T := 0
 	desc := 0
@@ -274,6 +296,15 @@ func (c06Engine) Run(sci interface{}, ctx *RunCtx) *Finding {
 	}
 	ctx.Sample(map[string]interface{}{"source": src, "allocation_trace": ref.Allocs, "total": T, "budgets": sc.Budgets, "optimize": sc.Optimize})
 	return nil
+}
+
+// rootMembershipRange: the tree is 'x in a..b' / 'x not in a..b' with constant bounds.
+func rootMembershipRange(root *N) bool {
+	if root.K != "bin" || (root.S != "in" && root.S != "not in") {
+		return false
+	}
+	r := root.C[1]
+	return r.K == "bin" && r.S == ".." && constOnly(r.C[0]) && constOnly(r.C[1])
 }
 
 // constOnly: the subtree mentions nothing but literals and arithmetic on them.
